@@ -241,6 +241,8 @@ class Machine(object):
         s.panics = []
         s.now = 0
         s.pruner = None
+        import os as _os
+        s.prune_merged = _os.environ.get('VERIF_PRUNE_MERGED', '0') == '1'; s.pending_checks = set()
         s.freed = {}            # heap cell id -> guard under which its Box allocation has been released
     # ---------------------------------------------------------------- helpers
     def oblige(s, kind, text, g):
@@ -421,6 +423,8 @@ class Machine(object):
             if f is None: raise EncodeError('promoted constant not found: ' + c)
             return s.eval_promoted(f)
         segs = [x for x in mp.strip_generics(c).split('::') if x]
+        nc_ = getattr(s.prog, 'named_consts', {}).get(segs[-1]) if segs else None
+        if nc_ is not None: return s.const(st, nc_)
         if len(segs) >= 2:
             en = s.find_enum(segs, st)
             if en is not None: return En(en[0], BV(en[1]), {})
@@ -577,6 +581,15 @@ class Machine(object):
             merge_states(old, st)
     def stop_at(s, st, phase, check=True):
         if st.g is FALSE: return
+        if check and s.pruner is not None and phase != 'E' and s.prune_merged:
+            # feasibility is checked once per position after the arrivals of this step have been merged (end of step())
+            st.phase = phase; st.lc = None
+            k = st.key
+            old = s.newstates.get(k)
+            if old is None: s.newstates[k] = st
+            else: merge_states(old, st)
+            s.pending_checks.add(k)
+            return
         if check and s.pruner is not None and phase != 'E':
             if s.only_budget_added(st):
                 s.stats['prune_skipped'] = s.stats.get('prune_skipped', 0) + 1
@@ -654,6 +667,17 @@ class Machine(object):
                 res = nat.apply(s, th, args, go, phase) if nat.phases > 1 else nat.apply(s, th, args, go)
                 s.finish_call(th, run, t, res)
         s.run_worklist(th)
+        if s.prune_merged and s.pending_checks:
+            for k in s.pending_checks:
+                v = s.newstates.get(k)
+                if v is None or v.g is FALSE: continue
+                if s.only_budget_added(v):
+                    s.stats['prune_skipped'] = s.stats.get('prune_skipped', 0) + 1
+                elif not s.pruner.feasible(v.g):
+                    s.stats['pruned'] = s.stats.get('pruned', 0) + 1
+                    del s.newstates[k]; continue
+                v.fg = v.g
+            s.pending_checks = set()
         th.states = {k: v for k, v in s.newstates.items() if v.g is not FALSE}
         s.st = None
         return took
